@@ -433,7 +433,7 @@ def run_script(ops_or_len, rng, profile, drv, res, with_listeners=True, outcomes
             else:
                 op = None
             if op is None:
-                op = irgen.gen_op(rng, cur, profile, compound=True, veto=True) if gen else ops_or_len[k]
+                op = irgen.gen_op(rng, cur, profile, compound=True, veto=True, badpos=True) if gen else ops_or_len[k]
             if gen and "oneshot" not in op and rng.random() < 0.03:
                 op = dict(op, oneshot=True)
             script.append(op)
